@@ -366,3 +366,79 @@ Definition conn_spec_ok (c : ccase) : bool :=
   && (negb (N.ltb (failures_in (cc_attempts c) (cc_do c)) (cc_attempts c)) || negb (N.eqb (cc_pushes c) 1) || all_status 2 (co_status o))
   && (negb (nlist_eqb (cc_do c) []) || all_status 2 (co_status o)).
 Definition conn_spec_violations (cs : list ccase) : list Z := map cc_id (filter (fun c => negb (conn_spec_ok c)) cs).
+
+(* ---------------------------------------------------------------- 5. what runs while the service mutex is held (round 8) *)
+(* sync.Mutex is not re-entrant: a goroutine that calls Lock() on a mutex it holds blocks for ever, holding it -- every other
+   user of the mutex (Request of later pushes, swapBuffers of the Run goroutine, PlanFlush) blocks behind it.  Seeded change C05-h:
+   Request, inside its locked region, asked for the size-triggered flush (maxQueueSize > 0, i.e. BULK_MAX_SIZE_BYTES set) through
+   PlanFlush(), which locks svc.mtx itself.  The branch is dead with the shipped default, so no default-configuration run meets it;
+   the obligation below is about the SOURCE and does not depend on the configuration.
+
+   translate/goroutines_writer_src/locks.go regenerates, for every method of the three service types (each owns a `mtx`), what it
+   calls while its receiver's mutex is held (lexical over-approximation) and whether it locks that mutex itself:
+     mm_self_calls   every method of the same type called on the receiver, anywhere in the body (the edges of "may lock")
+     mm_held_self    those called while the mutex is held
+     mm_held_fields  function-valued fields of the receiver called while held;  mm_held_other  any other callee text while held
+     mm_relock       R.mtx.Lock() written inside a held region *)
+Record mtx_method := {
+  mm_type : string; mm_name : string; mm_locks : bool; mm_relock : bool;
+  mm_self_calls : list string; mm_held_self : list string; mm_held_fields : list string; mm_held_other : list string
+}.
+
+Definition find_mm (tbl : list mtx_method) (T m : string) : option mtx_method :=
+  find (fun x => String.eqb (mm_type x) T && String.eqb (mm_name x) m) tbl.
+
+(* method m of type T, called on the receiver, may reach R.mtx.Lock() through calls on the same receiver (out of fuel: yes) *)
+Fixpoint may_lock (fuel : nat) (tbl : list mtx_method) (T : string) (seen : list string) (m : string) : bool :=
+  match fuel with
+  | O => true
+  | S f =>
+      if existsb (String.eqb m) seen then false
+      else match find_mm tbl T m with
+           | None => false
+           | Some x => mm_locks x || existsb (may_lock f tbl T (m :: seen)) (mm_self_calls x)
+           end
+  end.
+
+Definition lock_fuel (tbl : list mtx_method) : nat := S (List.length tbl).
+Definition relocking_calls (tbl : list mtx_method) (x : mtx_method) : list string :=
+  filter (may_lock (lock_fuel tbl) tbl (mm_type x) []) (mm_held_self x).
+Definition mm_ok (tbl : list mtx_method) (x : mtx_method) : bool :=
+  negb (mm_relock x) && match relocking_calls tbl x with [] => true | _ => false end.
+Definition lock_order_ok (tbl : list mtx_method) : bool := forallb (mm_ok tbl) tbl.
+Definition lock_order_offenders (tbl : list mtx_method) : list (string * string * bool * list string) :=
+  map (fun x => (mm_type x, mm_name x, mm_relock x, relocking_calls tbl x)) (filter (fun x => negb (mm_ok tbl x)) tbl).
+
+(* everything else met under a service mutex is on these lists; by reading, none of them can reach the service (processRequest /
+   acquireColumns are closures of service/impl/*.go over the column pools, insertCancel is a context.CancelFunc) *)
+Definition held_fields_allowed : list string := ["processRequest"; "insertCancel"; "acquireColumns"]%string.
+Definition held_other_allowed : list string :=
+  ["append"; "len"; "p.Done"; "context.Background"; "context.WithCancel"; "context.WithTimeout"; "time.NewTicker"; "time.Now";
+   "svc.watchdog.Stop"; "logger.Info"; "wg.Add"; "svc.rand.Float64"]%string.
+Definition strs_in (allowed l : list string) : bool := forallb (fun s => existsb (String.eqb s) allowed) l.
+Definition held_calls_unknown (tbl : list mtx_method) : list (string * string * list string) :=
+  filter (fun r => match snd r with [] => false | _ => true end)
+    (map (fun x => (mm_type x, mm_name x,
+                    filter (fun s => negb (existsb (String.eqb s) held_fields_allowed)) (mm_held_fields x)
+                    ++ filter (fun s => negb (existsb (String.eqb s) held_other_allowed)) (mm_held_other x))) tbl).
+Definition held_calls_known (tbl : list mtx_method) : bool := match held_calls_unknown tbl with [] => true | _ => false end.
+
+(* the methods whose locked regions the slice relies on must be there, locking *)
+Definition lockers_present (tbl : list mtx_method) : bool :=
+  forallb (fun m => match find_mm tbl "InsertServiceV2" m with Some x => mm_locks x | None => false end)
+          ["Request"; "swapBuffers"; "PlanFlush"; "Init"]%string.
+
+(* hand-written tables for the examples: the shipped shape, the seeded one, and one that re-enters through a helper *)
+Definition mm (T m : string) (locks : bool) (calls held : list string) : mtx_method :=
+  {| mm_type := T; mm_name := m; mm_locks := locks; mm_relock := false; mm_self_calls := calls; mm_held_self := held;
+     mm_held_fields := []; mm_held_other := [] |}.
+Definition mtx_core : list mtx_method :=
+  [mm "InsertServiceV2" "PlanFlush" true [] []; mm "InsertServiceV2" "Init" true [] [];
+   mm "InsertServiceV2" "Request" true [] []; mm "InsertServiceV2" "swapBuffers" true [] [];
+   mm "InsertServiceV2" "fetchLoopIteration" false ["swapBuffers"] []; mm "InsertServiceV2" "Run" true ["ping"; "fetchLoopIteration"] []]%string.
+Definition mtx_seeded_h : list mtx_method :=
+  [mm "InsertServiceV2" "PlanFlush" true [] []; mm "InsertServiceV2" "Init" true [] [];
+   mm "InsertServiceV2" "Request" true ["PlanFlush"] ["PlanFlush"]; mm "InsertServiceV2" "swapBuffers" true [] []]%string.
+Definition mtx_through_helper : list mtx_method :=
+  [mm "InsertServiceV2" "PlanFlush" true [] []; mm "InsertServiceV2" "flushNow" false ["flushNow"; "PlanFlush"] [];
+   mm "InsertServiceV2" "Request" true ["flushNow"] ["flushNow"]]%string.
